@@ -128,6 +128,13 @@ def session_oracle(plan, table):
             scored = [inf for inf in infos if inf['depth'] is not None and inf['score'] != '-']
             if 'expect_mate' in meta and (not scored or scored[-1]['score'] != 'mate%d' % meta['expect_mate']):
                 return 'forced mate in %d not reported (last score %s)' % (meta['expect_mate'], scored[-1]['score'] if scored else '-')
+            if 'expect_kind' in meta and scored:
+                sc = scored[-1]['score']
+                val = int(sc[2:]) if sc.startswith('cp') else (10 ** 6 if sc.startswith('mate') and not sc.startswith('mate-') else -10 ** 6)
+                if meta['expect_kind'] == 'win' and val < 500:
+                    return 'a won position with fewer than 100 reversible plies is scored %s (fifty-move draw applied too early?)' % sc
+                if meta['expect_kind'] == 'draw' and val != 0:
+                    return 'a position with 100 or more reversible plies is scored %s instead of the fifty-move draw' % sc
             if 'expect_score' in meta and (not scored or scored[-1]['score'] != meta['expect_score']):
                 return 'expected score %s, reported %s' % (meta['expect_score'], scored[-1]['score'] if scored else '-')
             withpv = [inf for inf in infos if inf['pv']]
@@ -157,12 +164,44 @@ def pv_checks(plan, table, answer):
     return out
 
 
+def sessions_agree(model_ans, impl_ans):
+    """Correspondence of the search model and the engine on what the properties determine: the board read-backs, and for
+    every go the scores of the completed iterations of depth <= 3 (exact minimax values: independent of move order,
+    killers, PV hints and the transposition table by theorem C08) on the common prefix of completed iterations (how many
+    iterations complete before a stop / time-out depends on node counts, i.e. on move order), and the number of bestmove
+    messages.  The identity of the best move and of the PV among equally valued lines is NOT compared: it depends on the
+    generation order, which no property constrains; the oracles check legality, searchmoves, value and PV validity instead."""
+    m = model_ans.split(' ; ')
+    i = project_session(impl_ans).split(' ; ')
+    if len(m) != len(i):
+        return False
+    for a, b in zip(m, i):
+        ta, tb = a.split(' '), b.split(' ')
+        if any(t.startswith('D:') or t.startswith('B:') for t in ta + tb):
+            # depth -> score of the completed iterations (an aborted iteration repeats the previous depth and score)
+            sa = {t.split(':')[1]: t.split(':')[2] for t in ta if t.startswith('D:') and t.split(':')[2] != '-' and 1 <= int(t.split(':')[1]) <= 3}
+            sb = {t.split(':')[1]: t.split(':')[2] for t in tb if t.startswith('D:') and t.split(':')[2] != '-' and 1 <= int(t.split(':')[1]) <= 3}
+            k = len(set(sa) & set(sb))
+            if any(sa[d] != sb[d] for d in set(sa) & set(sb)):
+                return False
+            if sum(t.startswith('B:') for t in ta) != sum(t.startswith('B:') for t in tb):
+                return False
+            # a null move on one side only
+            na = [t for t in ta if t.startswith('B:0000')]
+            nb = [t for t in tb if t.startswith('B:0000')]
+            if bool(na) != bool(nb) and k > 0:
+                return False
+        elif a != b:
+            return False
+    return True
+
+
 def build_cases(ctx, plans, table):
     table.resolve()
     resolve_searchmoves(ctx, plans, table)
     cases = []
     for pl in plans:
-        cases.append(Case(pl.request(), pl.stream, oracle=session_oracle(pl, table), proj=project_session))
+        cases.append(Case(pl.request(), pl.stream, oracle=session_oracle(pl, table), agree=sessions_agree))
     return cases
 
 
@@ -320,12 +359,23 @@ def mate_stream(ctx, plans, table):
             plans.append(pl)
 
 
+def position_keys(root, moves):
+    """position identity (placement, side, rights, e.p.) after every prefix of the game, from the rules Spec"""
+    reqs = ['spec:makeall %s %s' % (root, ' '.join(core.hex_token(m) for m in moves[:k])) for k in range(len(moves) + 1)]
+    ans = core.run_model(reqs)
+    return [tuple(a[3:].split('_')[:4]) if a.startswith('ok ') else None for a in ans]
+
+
 def repetition_stream(ctx, plans, table, n):
     lines = core.model_gen(['repgames', ctx.seed, n])
+    contempt = gen_int('contempt')
+    nthree = 0
     for l in lines:
         toks = l.split(' ')
         bar = toks.index('|')
         root, prefix, cyc = toks[1], toks[2:bar], toks[bar + 1:]
+        full = prefix + cyc * 3
+        keys = position_keys(root, full)
         for k in (1, 2):
             for cut in range(0, 4):
                 moves = prefix + cyc * k + cyc[:cut]
@@ -334,8 +384,16 @@ def repetition_stream(ctx, plans, table, n):
                 pl.pos(root, moves, idx)
                 pl.go(['depth', '1', 'searchmoves', cyc[cut]])
                 pl.meta[-1]['searchmoves'] = [cyc[cut]]
+                # independent oracle: the position after the move has then occurred three times (game history + the move
+                # itself; all moves since the prefix are reversible) -> the only root move leads to a repetition draw,
+                # valued draw + contempt from the mover's point of view
+                after = keys[len(moves) + 1] if len(moves) + 1 < len(keys) else None
+                if after is not None and keys[:len(moves) + 2].count(after) >= 3:
+                    pl.meta[-1]['expect_score'] = 'cp%d' % contempt
+                    nthree += 1
                 pl.go(['depth', ctx.rng.pick(['2', '3'])])
                 plans.append(pl)
+    ctx.notes.append('repetition sessions whose searched move completes a threefold (independent count): %d' % nthree)
     for line in corpus('threefold.txt'):
         root, rest = line.split(' | ')
         ms = rest.split(' ')
@@ -344,7 +402,29 @@ def repetition_stream(ctx, plans, table, n):
         pl.pos(ftok(root), ms[:-1], idx)
         pl.go(['depth', '3', 'searchmoves', ms[-1]])
         pl.meta[-1]['searchmoves'] = [ms[-1]]
-        pl.meta[-1]['expect_score'] = 'cp50'
+        pl.meta[-1]['expect_score'] = 'cp%d' % gen_int('contempt')
+        plans.append(pl)
+
+
+def gen_int(name):
+    import re as _re
+    txt = open(os.path.join(core.LEAN, 'Inkayaku', 'Gen', 'Eval.lean')).read()
+    return int(_re.search(r'def %s : (?:Int|Nat) := (-?\d+)' % name, txt).group(1))
+
+
+def fifty_explicit(ctx, plans, table):
+    """the fifty-move rule must not fire before 100 plies: a won K+Q v K position keeps a winning score"""
+    for fen_t, hm, depth, kind in (('7k/8/8/8/8/8/8/KQ6_w_-_-_%d_80', 0, 2, 'win'), ('7k/8/8/8/8/8/8/KQ6_w_-_-_%d_80', 49, 2, 'win'),
+                                   ('7k/8/8/8/8/8/8/KQ6_w_-_-_%d_80', 60, 2, 'win'), ('7k/8/8/8/8/8/8/KQ6_w_-_-_%d_80', 97, 2, 'win'),
+                                   ('7k/8/8/8/8/8/8/KQ6_w_-_-_%d_80', 98, 1, 'win'), ('7k/8/8/8/8/8/8/KQ6_w_-_-_%d_80', 99, 1, 'draw'),
+                                   ('7k/8/8/8/8/8/8/KQ6_w_-_-_%d_80', 120, 1, 'draw'),
+                                   ('kq6/8/8/8/8/8/8/7K_b_-_-_%d_80', 50, 2, 'win'), ('kq6/8/8/8/8/8/8/7K_b_-_-_%d_80', 96, 2, 'win')):
+        f = fen_t % hm
+        idx = table.add(f, [])
+        pl = Plan('fifty-move-explicit')
+        pl.pos(f, [], idx)
+        pl.go(['depth', str(depth)])
+        pl.meta[-1]['expect_kind'] = kind
         plans.append(pl)
 
 
@@ -659,18 +739,18 @@ def register(PROPS):
                             lambda c, pl, t: repetition_stream(c, pl, t, c.scale(10, 200)),
                             lambda c, pl, t: multi_cycle_stream(c, pl, t, c.scale(25, 600))],
                            binary_sessions=lambda c: c.scale(12, 300))
-    PROPS['C07'] = dict(modules=['Inkayaku.Props.C07'], theorems=[], cases=c07c, post=c07p, anchors=ENGINE_ANCHORS)
+    PROPS['C07'] = dict(modules=['Inkayaku.Props.C07'], theorems=['Inkayaku.C07.' + n for n in 'go_exactly_one_bestmove bestmove_legal every_iteration_legal root_move_from_buffer nolegal_null depth1_not_interrupted depth1_completes_partial'.split()] + ['Inkayaku.Search.boardLaws'], cases=c07c, post=c07p, anchors=ENGINE_ANCHORS)
     c08c, c08p = make_prop([lambda c, pl, t: depth_stream(c, pl, t, c.scale(150, 4000)), mate_stream,
                             lambda c, pl, t: multi_cycle_stream(c, pl, t, c.scale(10, 300))], minimax=True)
     PROPS['C08'] = dict(modules=['Inkayaku.Props.C08'], theorems=['Inkayaku.C08.' + n for n in 'quiescence_clamp quiescence_ok ab_ok root_exact order_irrelevant best_move_optimal ab_tt_ok root_exact_tt engine_order_is_permutation search_eq_mm specValue_eq_mm specValue_order_irrelevant specBestMoves_eq_optimal search_best_move_optimal mate_found mate_real'.split()], cases=c08c, post=c08p, anchors=ENGINE_ANCHORS)
     c09c, c09p = make_prop([lambda c, pl, t: interrupt_stream(c, pl, t, c.scale(24, 300), c.scale(90, 250))])
-    PROPS['C09'] = dict(modules=['Inkayaku.Props.C09'], theorems=[], cases=c09c, post=c09p, anchors=ENGINE_ANCHORS)
+    PROPS['C09'] = dict(modules=['Inkayaku.Props.C09'], theorems=['Inkayaku.C09.' + n for n in 'quiescence_board negamax_board deepen_board go_preserves_board go_preserves_inv session_preserves_board next_go_searches_same_position go_one_bestmove bestmove_from_last_completed_iteration bestmove_none_iff_no_completed_iteration'.split()] + ['Inkayaku.Search.boardLaws', 'Inkayaku.Search.unmake_make_of_generated', 'Inkayaku.Search.make_wf', 'Inkayaku.BoardCongr.make_congr', 'Inkayaku.BoardCongr.genPseudo_congr'], cases=c09c, post=c09p, anchors=ENGINE_ANCHORS)
     c16c, c16p = make_prop([lambda c, pl, t: multi_cycle_stream(c, pl, t, c.scale(60, 1500)),
                             lambda c, pl, t: limits_stream(c, pl, t, c.scale(40, 800))],
                            binary_sessions=lambda c: c.scale(25, 600))
-    PROPS['C16'] = dict(modules=['Inkayaku.Props.C16'], theorems=[], cases=c16c, post=c16p, anchors=ENGINE_ANCHORS)
+    PROPS['C16'] = dict(modules=['Inkayaku.Props.C16'], theorems=['Inkayaku.C16.' + n for n in 'info_depth_mono info_nodes_mono info_time_mono info_time_is_clock bestmove_is_pv0_ponder_is_pv1 null_bestmove_no_ponder'.split()], cases=c16c, post=c16p, anchors=ENGINE_ANCHORS)
     # C10: history part (props.py) + engine-level repetition / fifty-move sessions
-    e10c, e10p = make_prop([lambda c, pl, t: repetition_stream(c, pl, t, c.scale(25, 500)),
+    e10c, e10p = make_prop([lambda c, pl, t: repetition_stream(c, pl, t, c.scale(25, 500)), fifty_explicit,
                             lambda c, pl, t: fifty_stream(c, pl, t, c.scale(40, 800))])
     base10 = PROPS['C10']['cases']
     PROPS['C10']['cases'] = lambda ctx: base10(ctx) + e10c(ctx)
